@@ -159,6 +159,8 @@ pub struct E1Cfg<'a> {
     pub probes: &'a [Probe],
     /// probes used on states that are NOT one of the initial states (bug-created states): keep small
     pub history_check: bool,
+    /// states originating from the first `full_probe_seeds` seeds get the whole battery, later (model-selected) seeds a slice
+    pub full_probe_seeds: usize,
 }
 
 #[derive(Clone, Debug)]
@@ -316,7 +318,13 @@ pub fn run(api: &'static SetApi, cfg: &E1Cfg, rep: &mut Report) -> E1Result {
             let pk = (api.pk_from_raw)(&s.pk);
             let sk = (api.sk_from_raw)(&s.sk);
             // states that a defect created get a reduced battery (they are already violations of C09/C11)
-            let stride = if is_init { 1 } else { 7 };
+            let stride = if !is_init {
+                7
+            } else if reached.origin < cfg.full_probe_seeds {
+                1
+            } else {
+                9
+            };
             let plist: Vec<&Probe> = cfg.probes.iter().step_by(stride).collect();
             let skc = &skctxs[reached.origin];
             let pkc = &pkctxs[reached.origin];
